@@ -1098,7 +1098,19 @@ impl Worker {
                     } else if self.mon(mon_state) {
                         find!(mon_state, i, "state", opd.clone(), "state after the request: {e}");
                     } else {
-                        stats.collateral += 1;
+                        // whose business the difference is follows from what differs (a snapshot
+                        // of another client overwritten by this request is C11's and C09's, not
+                        // only the acceptance rule's)
+                        let mut tags = state_tags(&m2, &sd2, &an2);
+                        let me = aop.client();
+                        let other_touched = md.clients.iter().any(|(c, mc)| *c != me && sd2.clients.get(c) != Some(mc)) || sd2.clients.keys().any(|c| *c != me && !md.clients.contains_key(c));
+                        if other_touched {
+                            tags.push("C09");
+                        }
+                        match tags.into_iter().find(|t| self.mon(t)) {
+                            Some(t) => find!(t, i, "state", opd.clone(), "state after the request: {e}"),
+                            None => stats.collateral += 1,
+                        }
                     }
                 }
                 for m in ["C02", "C10", "C12"] { if self.mon(m) { stats.eval(m); } }
